@@ -19,9 +19,6 @@ type Decision struct {
 func (d Decision) String() string {
 	switch d.Kind {
 	case 'v':
-		if d.Open {
-			return fmt.Sprintf("v!%v", d.Excl)
-		}
 		return fmt.Sprintf("v=%d", d.Val)
 	case 'c':
 		return fmt.Sprintf("c%d", d.N)
@@ -84,6 +81,9 @@ type PathState struct {
 	smtDump  func(kind, label string, text string)
 	allDecls strings.Builder // everything sent since reset, for self-contained dumps
 	fixed    map[string]uint64
+	lastModel map[string]uint64 // assignment known to satisfy pc (nil if none)
+	noModelOpt bool
+	fallback  func(script string) Result // second solver for obligations the primary cannot decide
 }
 
 type Limits struct {
@@ -103,6 +103,7 @@ type Stats struct {
 	Discharged     int
 	TrivialOblig   int
 	Unknown        int
+	Fallback       int
 	Queries        int
 	Covers         map[string]int
 	Funcs          map[string]int
@@ -135,6 +136,7 @@ func (st *Stats) Merge(o *Stats) {
 	st.Discharged += o.Discharged
 	st.TrivialOblig += o.TrivialOblig
 	st.Unknown += o.Unknown
+	st.Fallback += o.Fallback
 	st.Queries += o.Queries
 	for k, v := range o.Covers {
 		st.Covers[k] += v
@@ -199,7 +201,35 @@ func (p *PathState) addPC(t *Term) {
 	}
 	p.pc = append(p.pc, t)
 	p.pending = append(p.pending, t)
+	if p.lastModel != nil {
+		if v, ok := Eval(t, p.lastModel, map[int]uint64{}); !ok || v == 0 {
+			p.lastModel = nil
+		}
+	}
 }
+
+// fetchModel obtains an assignment satisfying the current path condition.
+func (p *PathState) fetchModel() bool {
+	r := p.query(p.C.Bool(true))
+	if r != Sat {
+		p.endQuery()
+		return false
+	}
+	_, asg := p.model()
+	p.endQuery()
+	p.lastModel = asg
+	return true
+}
+
+// evalUnderModel evaluates a Bool term under the last model, if there is one.
+func (p *PathState) evalUnderModel(c *Term) (bool, bool) {
+	if p.lastModel == nil {
+		return false, false
+	}
+	v, ok := Eval(c, p.lastModel, map[int]uint64{})
+	return v != 0, ok
+}
+
 
 // query checks satisfiability of pc ∧ extra.
 func (p *PathState) query(extra *Term) Result {
@@ -282,6 +312,34 @@ func (p *PathState) Choose(alts []*Term) int {
 		return d.N
 	}
 	p.stats.SymBranches++
+	if len(alts) == 2 && !p.noModelOpt && p.S != nil {
+		if p.lastModel == nil {
+			p.fetchModel()
+		}
+		if p.lastModel != nil {
+			if v0, ok := p.evalUnderModel(alts[0]); ok {
+				side := 1
+				if v0 {
+					side = 0
+				}
+				if v1, ok1 := p.evalUnderModel(alts[side]); ok1 && v1 {
+					other := 1 - side
+					forced := true
+					if !alts[other].IsFalse() {
+						r := p.query(alts[other])
+						p.endQuery()
+						if r != Unsat {
+							forced = false
+							p.fork(p.prefixWith(Decision{Kind: 'b', N: other}))
+						}
+					}
+					p.addPC(alts[side])
+					p.record(Decision{Kind: 'b', N: side, Forced: forced})
+					return side
+				}
+			}
+		}
+	}
 	var feas []int
 	for i, a := range alts {
 		if a.IsFalse() {
@@ -340,48 +398,32 @@ func (p *PathState) ChooseConcrete(name string, n int) int {
 	return k
 }
 
-// Concretize returns a concrete value for t, exploring every feasible value.
+// Concretize returns a concrete value for t, exploring every feasible value. Each explored value is
+// known to be feasible when its work item is created (no dead enumeration paths).
 func (p *PathState) Concretize(t *Term, what string) uint64 {
 	if t.IsConst() {
 		return t.V
 	}
-	var excl []uint64
 	if p.replaying() {
 		d := p.prefix[p.pos]
 		if d.Kind != 'v' {
 			panic(engineErr("replay divergence: expected value decision, have %v", d))
 		}
-		if !d.Open {
-			p.addPC(p.C.Eq(t, p.C.Const(t.W, d.Val)))
-			p.record(d)
-			return d.Val
+		if d.Open {
+			// this work item continues an enumeration: look for the next sibling first
+			p.findSibling(t, append(append([]uint64{}, d.Excl...), d.Val), what)
+			d.Open = false
 		}
-		excl = d.Excl
-		for _, v := range excl {
-			p.addPC(p.C.Not(p.C.Eq(t, p.C.Const(t.W, v))))
-		}
-	}
-	if len(excl) >= p.lim.EnumCap {
-		panic(pathAbort{reason: "limit:enum", detail: what})
+		p.addPC(p.C.Eq(t, p.C.Const(t.W, d.Val)))
+		p.record(d)
+		return d.Val
 	}
 	p.flush()
-	{
-		var b strings.Builder
-		Emit(t, p.emitted, &b, func(u *Term) {
-			if !p.ufDone[u.Name] {
-				p.ufDone[u.Name] = true
-				b.WriteString(ufDecl(u))
-			}
-		})
-		if b.Len() > 0 {
-			p.S.Send(b.String())
-			p.allDecls.WriteString(b.String())
-		}
-	}
+	p.emitDefs(t)
 	r := p.query(p.C.Bool(true))
 	if r == Unsat {
 		p.endQuery()
-		panic(pathAbort{reason: "enum-end", detail: "enumeration exhausted"})
+		panic(pathAbort{reason: "dead", detail: "path condition unsatisfiable at concretize " + what})
 	}
 	if r == Unknown {
 		p.endQuery()
@@ -393,11 +435,53 @@ func (p *PathState) Concretize(t *Term, what string) uint64 {
 		panic(engineErr("concretize: %v", err))
 	}
 	v := vals[t.ref()]
-	ex2 := append(append([]uint64{}, excl...), v)
-	p.fork(p.prefixWith(Decision{Kind: 'v', Open: true, Excl: ex2}))
+	p.findSibling(t, []uint64{v}, what)
 	p.addPC(p.C.Eq(t, p.C.Const(t.W, v)))
-	p.record(Decision{Kind: 'v', Val: v, Excl: excl})
+	p.record(Decision{Kind: 'v', Val: v})
 	return v
+}
+
+func (p *PathState) emitDefs(t *Term) {
+	var b strings.Builder
+	Emit(t, p.emitted, &b, func(u *Term) {
+		if !p.ufDone[u.Name] {
+			p.ufDone[u.Name] = true
+			b.WriteString(ufDecl(u))
+		}
+	})
+	if b.Len() > 0 {
+		p.S.Send(b.String())
+		p.allDecls.WriteString(b.String())
+	}
+}
+
+// findSibling forks a work item for one more feasible value of t outside excl, if there is one.
+func (p *PathState) findSibling(t *Term, excl []uint64, what string) {
+	if len(excl) >= p.lim.EnumCap {
+		p.stats.Inconclusive = append(p.stats.Inconclusive, fmt.Sprintf("limit:enum (%s): more than %d values", what, p.lim.EnumCap))
+		return
+	}
+	p.flush()
+	p.emitDefs(t)
+	c := p.C.Bool(true)
+	for _, e := range excl {
+		c = p.C.And(c, p.C.Not(p.C.Eq(t, p.C.Const(t.W, e))))
+	}
+	r := p.query(c)
+	switch r {
+	case Unsat:
+		p.endQuery()
+	case Unknown:
+		p.endQuery()
+		p.stats.Inconclusive = append(p.stats.Inconclusive, "solver unknown while enumerating "+what)
+	case Sat:
+		vals, err := p.S.GetValues([]string{t.ref()})
+		p.endQuery()
+		if err != nil {
+			panic(engineErr("concretize: %v", err))
+		}
+		p.fork(p.prefixWith(Decision{Kind: 'v', Val: vals[t.ref()], Excl: excl, Open: true}))
+	}
 }
 
 func (p *PathState) freshName(name string) string {
@@ -423,6 +507,10 @@ func (p *PathState) Assume(c *Term) {
 		panic(pathAbort{reason: "assume"})
 	}
 	if p.replaying() {
+		p.addPC(c)
+		return
+	}
+	if v, ok := p.evalUnderModel(c); ok && v {
 		p.addPC(c)
 		return
 	}
@@ -498,6 +586,14 @@ func (p *PathState) Obligation(c *Term, kind, label, detail string) {
 		return
 	case Unknown:
 		p.endQuery()
+		if p.fallback != nil {
+			if fr := p.fallback(p.selfContained(neg)); fr == Unsat {
+				p.stats.Discharged++
+				p.stats.Fallback++
+				p.addPC(c)
+				return
+			}
+		}
 		p.stats.Unknown++
 		p.stats.Inconclusive = append(p.stats.Inconclusive, fmt.Sprintf("solver unknown on obligation %s (%s)", label, detail))
 		if p.smtDump != nil {
